@@ -275,6 +275,7 @@ func runC07(c *Ctx) {
 	}
 	if emit != nil {
 		c07Object(c, emit)
+		c07ItemEncodingError(c, emit)
 	}
 	checkEffectiveProperty(c, "R07.5", fn, "properties", "Skipable")
 	importPropertyStore(c, "R07.5")
@@ -882,4 +883,112 @@ func badValueOfFailedBoolAssert(f *ssa.Function, idx int) bool {
 		}
 	}
 	return some
+}
+
+// c07ItemEncodingError: the value of a field is the JSON encoding of the row's item; the cell's text stands in
+// only for an item that DID encode (as an empty object). So wherever the item's own json.Marshal may have
+// failed, nothing further is encoded, nothing is written and no success is returned: the only way on is to
+// return the error. Decided by walking the paths that leave the Marshal(item) call, in the record emitter and in
+// the package helpers it calls.
+func c07ItemEncodingError(c *Ctx, emit *ssa.Function) {
+	r := c.R
+	n := 0
+	for _, fn := range pkgReach(emit, 1) {
+		wv := writerValues(fn)
+		eachInstr(fn, func(in ssa.Instruction) {
+			m1, ok := in.(*ssa.Call)
+			if !ok || !isFunc(m1.Call.StaticCallee(), "encoding/json", "Marshal") {
+				return
+			}
+			// Marshal of an item: the argument comes from a call of Cell.Item
+			fromItem := false
+			for _, v := range phiClosure(unwrap(m1.Call.Args[0], true)) {
+				if src, isC := v.(*ssa.Call); isC && isCellSource(src.Call.StaticCallee()) && src.Call.StaticCallee().Name() == "Item" {
+					fromItem = true
+				}
+			}
+			if !fromItem {
+				return
+			}
+			n++
+			var e1 ssa.Value
+			for _, rr := range referrersOf(m1) {
+				if ex, isEx := rr.(*ssa.Extract); isEx && ex.Index == 1 {
+					e1 = ex
+				}
+			}
+			bad, npaths := "", 0
+			var badAt token.Pos
+			var walk func(b *ssa.BasicBlock, from int, knownNil bool, seen map[*ssa.BasicBlock]bool)
+			walk = func(b *ssa.BasicBlock, from int, knownNil bool, seen map[*ssa.BasicBlock]bool) {
+				if npaths > 400 || knownNil {
+					return // beyond a successful test of the error nothing is owed
+				}
+				if from == 0 {
+					if seen[b] {
+						return
+					}
+					seen[b] = true
+					defer delete(seen, b)
+				}
+				for _, x := range b.Instrs[from:] {
+					use := ""
+					switch y := x.(type) {
+					case *ssa.Call:
+						if y != m1 && isFunc(y.Call.StaticCallee(), "encoding/json", "Marshal") {
+							use = "something else is encoded in its place"
+						}
+						for _, a := range y.Call.Args {
+							if wv[a] {
+								use = "output is written"
+							}
+						}
+						if y.Call.IsInvoke() && wv[y.Call.Value] {
+							use = "output is written"
+						}
+					case *ssa.Return:
+						npaths++
+						rv := results(y)
+						if len(rv) > 0 && !definitelyNonNilErr(rv[len(rv)-1]) && rv[len(rv)-1] != e1 {
+							use = "the function returns without that error"
+						}
+						if use == "" {
+							return
+						}
+					case *ssa.If:
+						for k, sb := range b.Succs {
+							kn := false
+							for _, cf := range expandConds([]condFact{{y.Cond, k == 0, y}}) {
+								if e, nn, isT := nilTest(cf.Cond); isT && e1 != nil && e == e1 && ((nn == 0 && !cf.Val) || (nn == 1 && cf.Val)) {
+									kn = true
+								}
+							}
+							walk(sb, 0, kn, seen)
+						}
+						return
+					}
+					if use != "" {
+						if bad == "" {
+							bad, badAt = use, x.Pos()
+						}
+						return
+					}
+				}
+				for _, sb := range b.Succs {
+					walk(sb, 0, false, seen)
+				}
+			}
+			if e1 == nil {
+				r.Check("R07.4", FuncName(fn), "the error of encoding the item is looked at", m1.Pos(), false, "json.Marshal(item): the error result is dropped")
+				return
+			}
+			walk(m1.Block(), instrIndex(m1)+1, false, map[*ssa.BasicBlock]bool{})
+			if badAt == token.NoPos {
+				badAt = m1.Pos()
+			}
+			r.Check("R07.4", FuncName(fn), "an item that cannot be encoded ends the render with that error: nothing is substituted, written or reported as success while the error may be non-nil", badAt, bad == "",
+				"on a path where json.Marshal(item) may have failed, "+bad+": the output holds a value that is not the item's encoding (its Go text), and no error is returned")
+		})
+	}
+	r.Floor("R07.4", "encodings of a cell's item", n, 1)
 }
